@@ -260,7 +260,7 @@ func genStores(r *rand.Rand, n int, uniqueOnly bool) []StoreSpec {
 	var out []StoreSpec
 	for i := 0; i < n; i++ {
 		sp := StoreSpec{Name: fmt.Sprintf("st%d", i), Slot: pick(r, 2, 4, 4, 8, 16), Unique: uniqueOnly || r.IntN(4) != 0,
-			ValueMode: pick(r, 0, 0, 1, 2, 3), Balance: r.IntN(4) == 0, CacheMode: pick(r, 0, 0, 1, 2)}
+			ValueMode: pick(r, 0, 0, 1, 2, 3), CacheMode: pick(r, 0, 0, 1, 2)}
 		out = append(out, sp)
 	}
 	return out
@@ -274,7 +274,7 @@ func genOps(r *rand.Rand, c *Case, m Model, stores []int, nops, keyspace int, ta
 		si := stores[r.IntN(len(stores))]
 		sp := c.Stores[si]
 		k := kinds[r.IntN(len(kinds))]
-		key := r.IntN(keyspace)
+		key := 1 + r.IntN(keyspace) // key 0 and load balancing are C17's sub-batches (known findings there)
 		cur := m[sp.Name]
 		if (k == "remove" || k == "update" || k == "get" || k == "updkey") && len(cur) > 0 && r.IntN(4) != 0 {
 			key = cur[r.IntN(len(cur))].K
@@ -315,6 +315,9 @@ func setupTxn(r *rand.Rand, c *Case, m Model, nseed, keyspace int) Txn {
 			nseed = keyspace
 		}
 		ks := append([]int{}, keys[:nseed]...)
+		for j := range ks {
+			ks[j]++
+		}
 		sort.Ints(ks)
 		for j, k := range ks {
 			op := Op{K: "add", S: i, Key: k, Val: fmt.Sprintf("seed%d.%d", i, j)}
